@@ -75,7 +75,10 @@ def ob_triple(ctx, D, A, other, ac, flip=0):
 def ob_reference(ctx, D, A, other, ac, flip=0):
     """Every map equals the independent reference model (anchors follow from it)."""
     g, P = sym_grid(ctx, "g", D, ctx.seed, 0, align_corners=ac, flip=flip)
-    h, Q = sym_grid(ctx, "h", D, ctx.seed, 1, align_corners=ac) if other else (None, None)
+    if isinstance(other, str):
+        h, Q = geom.related_grid(ctx, g, P, "h", D, other, align_corners=ac)
+    else:
+        h, Q = sym_grid(ctx, "h", D, ctx.seed, 1, align_corners=ac) if other else (None, None)
     x = _pts(ctx, D, seed=ctx.seed)
     for B in AXES:
         y = g.transform_points(x, A, B, to_grid=h, decimals=None)
@@ -285,6 +288,9 @@ def obligations(tier: str, seed: int):
                     obs.append((f"roundtrip-{sfx}", ob_roundtrip, p))
                     if flip == 0 or tier == "thorough":
                         obs.append((f"reference-{sfx}", ob_reference, p))
+                    if flip == 0 and other:
+                        for rel in ("same-domain", "same-sampling"):
+                            obs.append((f"reference-D{D}-{A}-{rel}", ob_reference, dict(D=D, A=A, other=rel, ac=ac)))
                     if flip == 0:
                         obs.append((f"triple-{sfx}", ob_triple, p))
                         obs.append((f"vectors-{sfx}", ob_vectors, p))
